@@ -574,7 +574,7 @@ class Models:
                 e.assign_object(st, lv, src, fr); return lv
             v = e.rv(args[1], st, fr)
             if a0t.kind == 'optional':
-                if isinstance(v, Opaque) and v.what == 'nullopt':
+                if isinstance(v, Opaque) and v.what in ('nullopt', 'std::nullopt_t'):
                     v = Rec('optional', {'has': z3.BoolVal(False), 'value': e.load(st, e.member_lv(st, lv, 'value', None))})
                 elif not (isinstance(v, Rec) and v.t == 'optional'):
                     v = Rec('optional', {'has': z3.BoolVal(True), 'value': v})
